@@ -145,7 +145,7 @@ Definition apply_path_m (input context : json) (path : option string) : option (
 (* ------------------------------------------------------ writing (ResultPath) *)
 Definition is_delim (a : ascii) : bool := existsb (Nat.eqb (nat_of_ascii a)) resultpath_delims.
 
-(* re.findall("[^DELIMS]+", path): maximal runs of non-delimiter characters *)
+(* re.findall("[^DELIMS]+", text): maximal runs of non-delimiter characters *)
 Fixpoint ref_tokens_aux (cur : string) (s : string) : list string :=
   match s with
   | EmptyString => if String.eqb cur "" then [] else [cur]
@@ -154,7 +154,32 @@ Fixpoint ref_tokens_aux (cur : string) (s : string) : list string :=
       then (if String.eqb cur "" then ref_tokens_aux "" r else cur :: ref_tokens_aux "" r)
       else ref_tokens_aux (cur ++ String a "") r
   end.
-Definition ref_tokens (p : string) : list string := ref_tokens_aux "" p.
+
+(* the tokeniser of apply_resultpath: a member name in bracket notation, ['name'], is taken literally (everything up to the
+   next "']"); the text outside is split by the regular expression.  None: a "['" that is never closed (ResultPathMatchFailure).
+   inq: inside a quoted name; cur: the token being collected *)
+Definition flush (cur : string) (l : list string) : list string := if String.eqb cur "" then l else cur :: l.
+Fixpoint ref_tokens_q (inq : bool) (cur : string) (s : string) : option (list string) :=
+  match s with
+  | EmptyString => if inq then None else Some (flush cur [])
+  | String a r =>
+      if inq then
+        match r with
+        | String b r' =>
+            if Ascii.eqb a "'" && Ascii.eqb b "]" then option_map (cons cur) (ref_tokens_q false "" r')
+            else ref_tokens_q true (cur ++ String a "") r
+        | EmptyString => None
+        end
+      else
+        match r with
+        | String b r' =>
+            if Ascii.eqb a "[" && Ascii.eqb b "'" then option_map (flush cur) (ref_tokens_q true "" r')
+            else if is_delim a then option_map (flush cur) (ref_tokens_q false "" r)
+            else ref_tokens_q false (cur ++ String a "") r
+        | EmptyString => if is_delim a then Some (flush cur []) else Some [cur ++ String a ""]
+        end
+  end.
+Definition ref_tokens (p : string) : option (list string) := ref_tokens_q false "" p.
 
 Definition py_index (len : nat) (i : Z) : option nat :=
   let i' := if Z.ltb i 0 then (i + Z.of_nat len)%Z else i in
@@ -199,5 +224,5 @@ Definition apply_resultpath_m (input res : json) (path : option string) : result
   | Some p =>
       if String.eqb p "$" then Ok res
       else if prefixb "$$" p then Err ResultPathMatchFailure
-      else update_path input (ref_tokens p) res
+      else match ref_tokens p with Some toks => update_path input toks res | None => Err ResultPathMatchFailure end
   end.
